@@ -22,4 +22,11 @@ def mposL (shape order idx : List Nat) : Nat :=
 def ValidIdx (shape idx : List Nat) : Prop :=
   idx.length = shape.length ∧ ∀ ax, ax < shape.length → idx.getD ax 0 < shape.getD ax 0
 
+/-- `bound_check(index, shape)` of array.py, as the views call it before every item access: more coordinates than axes are
+refused, and so is any coordinate outside `[0, dim)` (the loop runs over `zip(index, shape)`: missing trailing coordinates are not
+checked - they read as 0, the library's convention). `true` = accepted. This definition is the one the executable reader
+(`LayR.itemAddr`) calls. -/
+def boundCheck (shape : List Nat) (idx : List Int) : Bool :=
+  !(decide (idx.length > shape.length)) && !((idx.zip shape).any fun p => decide (p.1 < 0) || decide (p.1 ≥ (p.2 : Int)))
+
 end Lay
